@@ -301,6 +301,25 @@ example : ∃ (P : Prim Rat) (Q : Mat Rat (1 + 1) 1) (R : Mat Rat 1 1),
     fin_cases i; fin_cases j
     simp [Mat.mul, Mat.transpose, sumFin, Fin.foldl_succ]; norm_num
 
+/-! ### The finding: a converged member of a batch keeps pivoting on a zero residual -/
+
+/-- `sqrt` irrelevant here (the only pivots are 1 and 0). -/
+def idPrim : Prim Rat := ⟨fun x => x, fun _ => 0⟩
+/-- rank-one PSD matrix `diag(1, 0)` -/
+def rankOne : Mat Rat 2 2 := fun i j => if i.val = 0 ∧ j.val = 0 then 1 else 0
+
+/-- **Counterexample to "every pivot is positive" for singular PSD input**: for `A = diag(1, 0)` the second iteration (which runs
+whenever another member of the batch keeps `max(errors) > tol`) pivots on an exactly ZERO residual entry: the code then computes
+`sqrt(0) = 0` and divides by it (NaN in floating point; the field model returns 0, which is what notes/C10_fix_1.diff makes the
+code do).  `PivotsPos` fails at step 1, so the invariant theorems do not apply there. -/
+theorem pc_zero_pivot_counterexample :
+    pivotVal (iter idPrim rankOne 1) ⟨1, by decide⟩ = 0 ∧ ¬ PivotsPos idPrim rankOne 2 := by
+  have h : pivotVal (iter idPrim rankOne 1) ⟨1, by decide⟩ = 0 := by decide +kernel
+  refine ⟨h, fun hp => ?_⟩
+  have := hp 1 (by decide) (by decide)
+  rw [h] at this
+  exact lt_irrefl _ this
+
 /-! ### Settings -/
 
 /-- With the defaults extracted from `settings.py` the preconditioner is used exactly for `n ≥ 2000`, with rank 15 and tolerance 1/1000. -/
